@@ -12,7 +12,7 @@ from .walktap import Tap, export_dag
 TRUSTED = [
     "Coq 8.16.1 kernel; vm_compute evaluates the memo-table machine on the exported histories; no native_compute",
     "hand model models/EnvHistory.v (family of persistent walkers) and models/WalkerFail.v (one-shot substituter) over core/DagWalk.v, tied by correspondence: every walk() of every environment-wide walker during a history is recorded (callback order, loop iterations, stack, memo keys) and replayed in the model",
-    "twin run: the probe formula alone, built in a fresh Environment; results compared up to the order of commutative arguments and the names of fresh symbols (harness/walkgen.py: canon, rename_fresh)",
+    "twin run: the probe formula alone, built in a fresh Environment; results compared up to the order of commutative arguments and the names of fresh symbols (harness/walkgen.py: canon_key = canon with every fresh name mapped to one token before AC sorting)",
     "aliasing of mutable cached answers (Theory objects in the TheoryOracle memo) is outside the functional model: it is checked on the implementation by (a) the twin comparison and (b) a snapshot of every memo table after every call of the history (an entry, once stored, must never change)",
     "sort-level aliasing: applications f(a1..an) whose argument and result sorts coincide (12 sorts incl. arrays, BV, custom; arity 1..3, bare symbols, nested, predicates, array values) followed by a panel of small formulas over NEW symbols of the sorts seen (plain, quantified, UF, select/store, arithmetic), each compared with its answer alone in a fresh Environment",
     "argument histories: substitute(f1, map1) failing midway at every child position or succeeding, inside / outside / under nested binders, followed by substitute(f2, map2) on an overlapping formula (MG and a long-lived MS substituter), compared with a fresh Environment",
@@ -150,7 +150,7 @@ class Recorder(object):
                 self.problems.append("%s: memo entry replaced after %s" % (self.name, label))
             elif _content(cur) != rep:
                 self.problems.append("%s: the cached answer for key %s was MUTATED in place after it was stored (seen after %s): %s -> %s"
-                                     % (self.name, walkgen.canon(k) if hasattr(k, "node_id") else "?", label, rep, _content(cur)))
+                                     % (self.name, walkgen.canon_key(k) if hasattr(k, "node_id") else "?", label, rep, _content(cur)))
 
     def coq(self):
         return walktap.coq_case(self.table, self.early, self.oneshot, self.walks)
@@ -250,6 +250,7 @@ def one_history(rnd, C, hist_len, record):
             r.check_memo_stable("%s(row %d)" % (call[0], call[1]))
     if failing:
         return None
+    probe_before_id = env.formula_manager._next_free_id
     after = do(env, nodes, probe)
     again = do(env, nodes, probe)
     watch.check("probe %s(row %d)" % (probe[0], probe[1]))
@@ -263,10 +264,15 @@ def one_history(rnd, C, hist_len, record):
     diffs = []
 
     def key(o):
-        return (o[0], walkgen.rename_fresh(walkgen.canon_value(o[1])) if o[0] == "ok" else o[1])
+        return (o[0], walkgen.canon_key(o[1]) if o[0] == "ok" else o[1])
+    creation_order = None
     if key(after) != key(fresh):
-        diffs.append({"what": "probe after the history differs from the probe in a fresh environment",
-                      "after_history": list(key(after)), "fresh": list(key(fresh))})
+        ks = classify_difference(env, probe_before_id, nodes[pi], lambda e, f: C[probe[0]][1](e, f, probe[2]))
+        if ks == key(after):
+            creation_order = {"used_environment": list(key(after)), "minimal_fresh_environment": list(key(fresh))}
+        else:
+            diffs.append({"what": "probe after the history differs from the probe in a fresh environment",
+                          "after_history": list(key(after)), "fresh": list(key(fresh)), "same_constructions_no_calls": list(ks)})
     if after[0] == "ok" and probe[0] in SAME_OBJECT and after[1] is not again[1]:
         diffs.append({"what": "repeating the call returned another object", "first": str(key(after)), "second": str(key(again))})
     elif key(after) != key(again) and probe[0] != "cnf":
@@ -275,6 +281,8 @@ def one_history(rnd, C, hist_len, record):
         diffs.append({"what": p})
     replay = {"recipe": rows, "history": history, "probe": probe,
               "repro": "harness.c14.replay_history(%r, %r, %r)" % (rows, history, probe)}
+    if creation_order:
+        replay["creation_order"] = creation_order
     return replay, diffs, recs
 
 
@@ -332,7 +340,7 @@ def aliasing_directed(chk):
                 continue
             rec.check_memo_stable("get_theory(%s)" % label)
             chk.count(("aliasing", label, probe_kind))
-            rep = {"kind": "history", "history": ["get_%s(%s)" % (probe_kind, walkgen.canon(W)), "get_%s(%s)" % (probe_kind, walkgen.canon(P))],
+            rep = {"kind": "history", "history": ["get_%s(%s)" % (probe_kind, walkgen.canon_key(W)), "get_%s(%s)" % (probe_kind, walkgen.canon_key(P))],
                    "repro": "harness.c14.aliasing_replay(%d, %r)" % (k, probe_kind)}
             if after != alone or first != again:
                 chk.violation(dict(rep, what="the theory detected for a formula depends on an earlier query about %s: a cached Theory object was "
@@ -477,10 +485,10 @@ def sort_aliasing(chk, only=None):
                         got = (lbl, _ask(lambda: env.theoryo.get_theory(f)), _ask(lambda: orc.get_logic(f, env)))
                         chk.count(("sort-panel", sname, hlabel, first_query, pname, lbl))
                         if got != fresh[k] and bad is None:
-                            bad = (pname, lbl, walkgen.canon(f), got, fresh[k])
+                            bad = (pname, lbl, walkgen.canon_key(f), got, fresh[k])
                 rec.check_memo_stable("panel after get_%s(%s)" % (first_query, hlabel))
                 rep = {"kind": "history", "repro": "harness.c14.sort_aliasing_replay(%d, %d, %r)" % (idx, hk, first_query),
-                       "history": ["get_%s(%s) = %s" % (first_query, walkgen.canon(H), hist_answer)]}
+                       "history": ["get_%s(%s) = %s" % (first_query, walkgen.canon_key(H), hist_answer)]}
                 if bad:
                     rep["history"].append("get_theory / get_logic(%s)" % bad[2])
                     chk.violation(dict(rep, what="the theory/logic detected for a formula that shares only the SORT %s with an earlier query (%s over sort %s) "
@@ -590,14 +598,14 @@ def run_binder_history(chk, atoms1, atoms2, b1, b2, fail_at, which, map2_kind):
         first = None
         if with_history:
             try:
-                first = ("ok", walkgen.canon(sub.substitute(f1, map1)))
+                first = ("ok", walkgen.canon_key(sub.substitute(f1, map1)))
             except Exception as ex:        # noqa
                 first = ("raise", type(ex).__name__)
-        desc = (walkgen.canon(f1), walkgen.canon(f2), walkgen.canon_value(map1), walkgen.canon_value(map2))
+        desc = (walkgen.canon_key(f1), walkgen.canon_key(f2), walkgen.canon_key(map1), walkgen.canon_key(map2))
         try:
             r = sub.substitute(f2, map2)
             r2 = sub.substitute(f2, map2)
-            res.append((first, ("ok", walkgen.canon(r)), r is r2) + desc)
+            res.append((first, ("ok", walkgen.canon_key(r)), r is r2) + desc)
         except Exception as ex:        # noqa
             res.append((first, ("raise", type(ex).__name__), True) + desc)
     used, fresh = res
@@ -691,13 +699,13 @@ def volume_history(chk, rnd, stages=(70000, 76000)):
         history.append("one small call per walker on a new formula")
         again = [(nm, f, fn()) for nm, f, fn in probes(env)]
         for (nm, f, a), (_, _, b) in zip(first, again):
-            chk.count(("volume", nm, si, walkgen.canon(f)[:60]))
+            chk.count(("volume", nm, si, walkgen.canon_key(f)[:60]))
             if a is not b and not bad:
-                bad.append((nm, walkgen.canon(f), walkgen.canon_value(a) == walkgen.canon_value(b), total))
+                bad.append((nm, walkgen.canon_key(f), walkgen.canon_key(a) == walkgen.canon_key(b), total))
     fres = [(nm, f, fn()) for nm, f, fn in probes(fresh)]
     for (nm, f, a), (_, _, b) in zip(first, fres):
-        if walkgen.canon_value(a) != walkgen.canon_value(b) and not bad:
-            bad.append((nm + " (value differs from a fresh environment)", walkgen.canon(f), False, total))
+        if walkgen.canon_key(a) != walkgen.canon_key(b) and not bad:
+            bad.append((nm + " (value differs from a fresh environment)", walkgen.canon_key(f), False, total))
     chk.cov["volume_memo_sizes"] = dict((w, len(getattr(env, w).memoization)) for w in PERSISTENT)
     rep = {"kind": "history", "history": history + ["the probe calls again"], "recipe": rows, "repro": "harness.c14.replay_volume(%r)" % (list(stages),)}
     if bad:
@@ -829,7 +837,7 @@ def container_history(chk, hseed, which="MG", report=True):
     same_for_both = rnd.random() < 0.08
     for k in range(rnd.choice([4, 6, 8])):
         kind = "none" if k == 0 else rnd.choice(MUTATIONS)
-        before = walkgen.canon_value(subs)
+        before = walkgen.canon_key(subs)
         _mutate(rnd, kind, subs, items)
         if use_interp and k > 0 and rnd.random() < 0.5:
             f0 = ffs[0].function_name()
@@ -845,7 +853,7 @@ def container_history(chk, hseed, which="MG", report=True):
             a_int = subs           # the same (empty) object for both parameters
         got = ("ok", None)
         try:
-            got = ("ok", walkgen.canon(sub.substitute(f, a_subs, a_int) if a_int is not None else sub.substitute(f, a_subs)))
+            got = ("ok", walkgen.canon_key(sub.substitute(f, a_subs, a_int) if a_int is not None else sub.substitute(f, a_subs)))
         except Exception as ex:        # noqa
             got = ("raise", type(ex).__name__)
         # reference: the container's CURRENT content, new dicts, new substituter, other environment
@@ -855,11 +863,11 @@ def container_history(chk, hseed, which="MG", report=True):
             rint = dict((to_ref(kk), sb.FunctionInterpretation([to_ref(p_) for p_ in vv.formal_params], to_ref(vv.function_body))) for kk, vv in interp.items()) if a_int is interp else {}
         rsub = (sb.MGSubstituter if which == "MG" else sb.MSSubstituter)(ref)
         try:
-            exp = ("ok", walkgen.canon(rsub.substitute(to_ref(f), rsubs, rint) if rint is not None else rsub.substitute(to_ref(f), rsubs)))
+            exp = ("ok", walkgen.canon_key(rsub.substitute(to_ref(f), rsubs, rint) if rint is not None else rsub.substitute(to_ref(f), rsubs)))
         except Exception as ex:        # noqa
             exp = ("raise", type(ex).__name__)
         steps.append("%s the caller's dict in place: %s -> %s; substitute(row %d = %s, <that dict>)" % (
-            {"none": "(no change to)"}.get(kind, kind), before[:160], walkgen.canon_value(subs)[:160], i, walkgen.canon(f)[:160]))
+            {"none": "(no change to)"}.get(kind, kind), before[:160], walkgen.canon_key(subs)[:160], i, walkgen.canon_key(f)[:160]))
         chk.count(("container", which, hseed, k))
         if got != exp:
             diffs.append({"step": k, "mutation": kind, "got": list(got), "expected_from_current_content": list(exp)})
@@ -899,9 +907,9 @@ def eager_model_histories(chk, rnd, count):
         pe.push_env(env)
         try:
             def snapshot():
-                vals = [walkgen.canon(model.get_value(q)) for q in queries]
-                it = sorted((walkgen.canon(k), walkgen.canon(v)) for k, v in model)
-                byget = sorted((walkgen.canon(k), walkgen.canon(model.get_value(k))) for k, _ in model)
+                vals = [walkgen.canon_key(model.get_value(q)) for q in queries]
+                it = sorted((walkgen.canon_key(k), walkgen.canon_key(v)) for k, v in model)
+                byget = sorted((walkgen.canon_key(k), walkgen.canon_key(model.get_value(k))) for k, _ in model)
                 sat = model.satisfies(m.And([m.EqualsOrIff(k, v) for k, v in model]))
                 return vals, it, byget, sat
             first = snapshot()
@@ -935,7 +943,7 @@ def parser_stream_histories(chk, rnd, count):
                "(declare-fun p () Bool)\n(declare-fun a () Int)\n(assert (=> p (= a 2)))\n", "(declare-fun a () Int)\n(declare-fun b () Int)\n(assert (< b a))\n"]
 
     def parse(p, stream):
-        return [(c.name, [walkgen.canon_value(a) if hasattr(a, "node_id") else str(a) for a in c.args]) for c in p.get_script(stream).commands]
+        return [(c.name, [walkgen.canon_key(a) if hasattr(a, "node_id") else str(a) for a in c.args]) for c in p.get_script(stream).commands]
     for h in range(count):
         env = Environment()
         p = SmtLibParser(environment=env)
@@ -1012,6 +1020,36 @@ def rebuild(f, ref, cache):
         else:
             cache[x] = rm.create_node(x.node_type(), tuple(cache[a] for a in x.args()), x._content.payload)
     return cache[f]
+
+
+def replicate_env(env, before_id):
+    """An environment with the same CONSTRUCTION history (every node of env with id < before_id,
+    created in the same order, so that node ids are ordered alike) and no CALL history (all
+    walkers new).  Used to tell call-history dependence from construction-order dependence."""
+    from pysmt.environment import Environment
+    ref, cache = Environment(), {}
+    for n in sorted((x for x in env.formula_manager.formulae.values() if x.node_id() < before_id), key=lambda x: x.node_id()):
+        try:
+            rebuild(n, ref, cache)
+        except Exception:        # noqa: a node that was rejected when it was created
+            pass
+    return ref, cache
+
+
+def classify_difference(env, before_id, inp, run_ref):
+    """True iff an environment with the same constructions and no earlier calls agrees with ... the
+    caller compares: returns the canonical outcome of run_ref(ref, rebuilt input)."""
+    import pysmt.environment as pe
+    ref, cache = replicate_env(env, before_id)
+    rinp = rebuild(inp, ref, cache)
+    pe.push_env(ref)
+    try:
+        r = ("ok", run_ref(ref, rinp))
+    except Exception as ex:        # noqa
+        r = ("raise", type(ex).__name__)
+    finally:
+        pe.pop_env()
+    return (r[0], walkgen.canon_key(r[1]) if r[0] == "ok" else r[1])
 
 
 def _feedback_ops():
@@ -1103,6 +1141,7 @@ def feedback_steps(chk, rnd, env, f0, label, stats, steps=3, first_op=None):
             inp = _embed(env, cur, rnd) if mode.startswith("operation on a new") else cur
         if OPS[nm][0]:
             inp = _boolify(env, inp)
+        before_id = env.formula_manager._next_free_id
         pe.push_env(env)
         try:
             got = ("ok", OPS[nm][1](env, inp, False))
@@ -1121,13 +1160,26 @@ def feedback_steps(chk, rnd, env, f0, label, stats, steps=3, first_op=None):
             pe.pop_env()
         # fresh symbols (of this call or of an earlier cnf whose result is the input) all map to one token
         # BEFORE commutative arguments are sorted: a comparison up to fresh names that does not depend on them
-        kg = (got[0], walkgen.canon(got[1], _fresh_token) if got[0] == "ok" else got[1])
-        ke = (exp[0], walkgen.canon(exp[1], _fresh_token) if exp[0] == "ok" else exp[1])
-        hist.append((nm, "%s(%s)  [%s]" % (nm, walkgen.canon(inp)[:300], mode), kg))
+        kg = (got[0], walkgen.canon_key(got[1]) if got[0] == "ok" else got[1])
+        ke = (exp[0], walkgen.canon_key(exp[1]) if exp[0] == "ok" else exp[1])
+        hist.append((nm, "%s(%s)  [%s]" % (nm, walkgen.canon_key(inp)[:300], mode), kg))
         stats["calls"] += 1
         if kg != ke:
+            # same constructions in the same order, but no earlier calls: does THAT environment agree?
+            ks = classify_difference(env, before_id, inp, lambda e, f: OPS[nm][1](e, f, True))
+            if ks == kg:
+                stats["creation_order"] = stats.get("creation_order", 0) + 1
+                chk.violation({"kind": "history", "what": "%s gives a result that depends on the ORDER in which the nodes of its input were created (node ids), beyond AC order: "
+                               "an environment with the same constructions and no earlier calls agrees with the used one, a minimal fresh environment does not" % nm,
+                               "input": walkgen.canon_key(inp)[:600], "used_environment": list(kg), "minimal_fresh_environment": list(ke), "origin": label},
+                              key="creation-order:%s" % nm)
+                if got[0] != "ok":
+                    return True
+                cur = got[1]
+                continue
             chk.violation({"kind": "history", "what": "%s on an input built from the RESULT of an earlier call (%s) differs from the same call on the same formula in a fresh environment"
-                           % (nm, mode), "history": ["%s -> %s" % (h[1], str(h[2][1])[:300]) for h in hist], "after_history": list(kg), "fresh": list(ke), "origin": label},
+                           % (nm, mode), "history": ["%s -> %s" % (h[1], str(h[2][1])[:300]) for h in hist], "after_history": list(kg), "fresh": list(ke),
+                           "same_constructions_no_calls": list(ks), "origin": label},
                           key="feedback:%s:%s" % (hist[0][0] if len(hist) > 1 else nm, nm))
             return False
         if got[0] != "ok":
@@ -1150,6 +1202,34 @@ def _arith_term(rnd, m, xs, depth, real=False):
     if k < 0.85:
         return m.Times(a, m.Real(2) if real else m.Int(rnd.randrange(2, 4)))
     return m.Div(a, m.Real(rnd.randrange(2, 4))) if real else m.Minus(m.Times(a, m.Int(2)), b)
+
+
+def creation_order_directed(chk):
+    """The same formula built in two fresh environments that differ only in the order in which two
+    of its leaves are created (as an earlier, unrelated formula of a history would cause)."""
+    from pysmt.environment import Environment
+    from pysmt.typing import INT, REAL
+    shapes = [("(-1)*i0 + (-1)", lambda m, c, x: m.Plus(m.Times(c(-1), x), c(-1))),
+              ("(-3)*i0 + i0", lambda m, c, x: m.Plus(m.Times(c(-3), x), x)),
+              ("i0 - (-2)*i0", lambda m, c, x: m.Minus(x, m.Times(c(-2), x)))]
+    for label, mk in shapes:
+        for ty, cn in ((INT, "Int"), (REAL, "Real")):
+            res = []
+            for const_first in (False, True):
+                env = Environment()
+                m = env.formula_manager
+                c = getattr(m, cn)
+                if const_first:
+                    for v in (-1, -2, -3):
+                        c(v)                      # e.g. left behind by an earlier, unrelated formula
+                x = m.Symbol("i0", ty)
+                res.append(walkgen.canon_key(env.simplifier.simplify(mk(m, c, x))))
+            chk.count(("creation-order", label, cn))
+            if res[0] != res[1]:
+                chk.violation({"kind": "history", "what": "simplify(%s) over %s depends on whether the constant was created before the symbol (as an earlier unrelated formula "
+                               "of the same environment would cause): %s vs %s" % (label, cn, res[0], res[1]),
+                               "history": ["earlier: a formula that mentions the constants -1, -2, -3", "simplify(%s)" % label], "fresh": res[0], "after_history": res[1]},
+                              key="creation-order:simplify")
 
 
 def feedback_family(chk, rnd, tier):
@@ -1182,17 +1262,17 @@ def feedback_family(chk, rnd, tier):
         r = env.simplifier.simplify(t)
         ref = Environment()
         rr = rebuild(r, ref, {})
-        if walkgen.canon(pysmt.simplifier.Simplifier(ref).simplify(rr)) == walkgen.canon(rr):
+        if walkgen.canon_key(pysmt.simplifier.Simplifier(ref).simplify(rr)) == walkgen.canon_key(rr):
             continue
         stats["non_fixed_points"] += 1
         chk.count(("feedback-arith", stats["non_fixed_points"]))
         # the result object r was produced by THIS environment's simplifier: feed it back
-        if not feedback_steps(chk, rnd, env, r, "simplify(%s) = %s (not a fixed point of the simplifier)" % (walkgen.canon(t)[:200], walkgen.canon(r)[:200]), stats,
+        if not feedback_steps(chk, rnd, env, r, "simplify(%s) = %s (not a fixed point of the simplifier)" % (walkgen.canon_key(t)[:200], walkgen.canon_key(r)[:200]), stats,
                               steps=2, first_op="simplify"):
             env = None
             continue
         g = _embed(env, r, rnd)
-        feedback_steps(chk, rnd, env, g, "a term containing simplify(%s)" % walkgen.canon(t)[:200], stats, steps=1, first_op="simplify")
+        feedback_steps(chk, rnd, env, g, "a term containing simplify(%s)" % walkgen.canon_key(t)[:200], stats, steps=1, first_op="simplify")
     chk.cov["feedback"] = stats
     return stats
 
@@ -1202,6 +1282,7 @@ def run(tier):
     rnd = random.Random(chk.seed)
     warnings.simplefilter("ignore")
     ok = chk.prove()
+    corpus_histories(chk)
     C = _calls()
     nh = 2500 if tier == "quick" else 20000
     nrec = 300 if tier == "quick" else 1500
@@ -1221,6 +1302,10 @@ def run(tier):
             if rc.walks:
                 rows_out.append(rc.coq())
                 meta.append(dict(replay, walker=rc.name))
+        if replay.get("creation_order"):
+            chk.violation(dict(replay, kind="history", what="%s gives a result that depends on the ORDER in which nodes were created (earlier constructions made by the history), "
+                               "beyond AC order: an environment with the same constructions and no earlier calls agrees with the used one" % replay["probe"][0]),
+                          key="creation-order:%s" % replay["probe"][0])
         if diffs:
             aliasing = any("MUTATED" in d["what"] for d in diffs)
             chk.violation(dict(replay, kind="history", what=diffs[0]["what"], differences=diffs[:4]),
@@ -1233,6 +1318,7 @@ def run(tier):
     vol = [volume_history(chk, rnd) for _ in range(1 if tier == "quick" else 3)]
     chk.cov["volume_histories"] = {"count": len(vol), "distinct_nodes_through_each_walker": vol, "stages": "after > 2^16 and after > 2^17 distinct nodes",
                                    "seconds": round(time.time() - tv, 1)}
+    creation_order_directed(chk)
     feedback_family(chk, rnd, tier)
     nc = 400 if tier == "quick" else 4000
     hits = {}
@@ -1285,6 +1371,29 @@ def run(tier):
                       "of the recipe -> probe call; compared with the probe alone in a fresh Environment, with a repeated probe, with the Coq machine")
 
 
+def corpus_histories(chk):
+    """Histories kept from earlier runs (minimised failures and false alarms of the comparison);
+    they run first.  Each must give the fresh-environment answer."""
+    path = os.path.join(os.path.dirname(os.path.abspath(__file__)), "corpus", "c14_histories.json")
+    try:
+        entries = json.load(open(path))
+    except OSError:
+        entries = []
+    import contextlib
+    for k, e in enumerate(entries):
+        rows = [tuple(r) for r in e["rows"]]
+        history = [tuple(h) for h in e["history"]]
+        probe = tuple(e["probe"])
+        with contextlib.redirect_stdout(io.StringIO()) as out:
+            rc = replay_history(rows, history, probe)
+        chk.count(("corpus", k))
+        if rc:
+            chk.violation({"kind": "history", "what": "corpus history %d: probe after the history differs from the probe in a fresh environment" % k, "recipe": rows,
+                           "history": history, "probe": probe, "output": out.getvalue()[-1500:],
+                           "repro": "harness.c14.replay_history(%r, %r, %r)" % (rows, history, probe)}, key="corpus:%d" % k)
+    chk.cov["corpus_histories"] = len(entries)
+
+
 def replay_history(rows, history, probe):
     warnings.simplefilter("ignore")
     from pysmt.environment import Environment
@@ -1307,7 +1416,7 @@ def replay_history(rows, history, probe):
     pe.push_env(fe)
     b = C[probe[0]][1](fe, fn[probe[1]], probe[2])
     pe.pop_env()
-    ka, kb = walkgen.rename_fresh(walkgen.canon_value(a)), walkgen.rename_fresh(walkgen.canon_value(b))
+    ka, kb = walkgen.canon_key(a), walkgen.canon_key(b)
     print("after history:", ka[:600])
     print("fresh        :", kb[:600])
     bad = [p for r in recs for p in r.problems]
